@@ -19,7 +19,7 @@ from .oracle_random import injected_randbelow
 PROP = "C11"
 MODEL = "RandFuncs"
 SHARD = 300
-CASE_TIMEOUT = 30
+CASE_TIMEOUT = 45
 DEN = 1024
 US = 1_000_000
 DAYUS = 86_400 * US
@@ -43,7 +43,16 @@ RULE = ("cases: one-field recipes calling random_number / random_choice / date_b
         "reaching it by every route an argument can take (YAML int, quoted digits, `${{ }}` / `${% %}` / `<< >>` formula, variable, variable defined by a formula, "
         "option default, option text from the caller, integer arithmetic, earlier field / this.field), dialect 2 (formula results rendered to text and re-read) and 3, "
         "call written as a block / inside a formula / positionally / in `<< >>`: checked against the integers written (oracle + FNumber); random_choice weights "
-        "beyond 2**53.  non-trivial: a run that produced at least one value from a range "
+        "beyond 2**53.  Round 5: (a) FRESH-PROCESS cases: a recipe whose object draws three wide random_number lattices (>= 2^20 points), two-point lattices, "
+        "small lattices, random_choice (list / weighted), date_between, datetime_between in every row, preceded (earlier object, earlier field of the row, later field = before "
+        "the next row, parent of a friend) by 0-3 other features that might touch the process-wide generator (unique_id, unique_alpha_code, UniqueId.NumericIdGenerator / "
+        "AlphaCodeGenerator in 7 configurations, fake data incl. locale, Dataset.shuffle / iterate over a CSV, random_reference (plain / unique), Schedule.Event, Counters, Math, "
+        "today / now / date(), include_file, macro, earlier draws), is run once in each of 6 NEW interpreter processes (API on the file or `python -m snowfakery`, dialect 2 / 3, "
+        "count / friends / target_number); every value is checked against its bounds / lattice / options, and every draw POSITION (row, field) is compared across the processes: "
+        "positions showing the same value in all processes may not add up to 40 bits of min-entropy (false alarm on correct code < 2^-84 per case with 6 processes, < 2^-59 with 5; "
+        "fewer usable processes: nothing is said); (b) random_choice whose OPTIONS are texts of digit-like characters that are not ASCII digits (str.isdecimal() scripts, "
+        "superscripts, vulgar fractions, CJK numerals, float-like, mixed with ASCII digits), list / weighted, block / inline, dialect 2 / 3: the value returned must be the listed "
+        "TEXT (label read back by exact match; anything else is not a listed option), draws injected and compared with the model.  non-trivial: a run that produced at least one value from a range "
         "with >= 2 lattice points / >= 2 options / bounds that differ, or an error case of the property "
         "(empty range, all-zero weights); distinct by case hash")
 TRUSTED = ["harness/oracle_random.py: random.Random._randbelow patched to inject the integer draw",
@@ -51,6 +60,9 @@ TRUSTED = ["harness/oracle_random.py: random.Random._randbelow patched to inject
            "harness/c11.py: for the property oracle (and for one bound / printed value in four on the model side) bounds and printed results are "
            "converted with Python's datetime (day numbers, microseconds); otherwise the model reads the texts itself",
            "harness/c11.py block cases: the row key is read from a sibling field `k` of the same row (evaluated by the implementation)",
+           "harness/c11.py run_fresh: process plumbing (temporary directory with recipe.yml and two helper files, 6 child interpreters started together with PYTHONPATH = the repo, "
+           "PYTHONHASHSEED removed, TZ=UTC; a child that fails or is late is left out); the bound on the false-alarm probability assumes that CPython seeds `random` (and Faker its "
+           "generator) from OS entropy at import, independently in every process",
            "process time zone forced to UTC (date.today(), Faker's local-zone conversions)",
            "harness/c11.py frozen_clock: for datetime cases with now / relative bounds template_funcs' datetime.now() is frozen at one "
            "reading, which is passed to the model as the clock (both per-bound readings equal); if it cannot be frozen the model "
@@ -64,6 +76,9 @@ ASSUMPTIONS = ["CPython random.randrange / random.choice / random.choices (bisec
                "formula evaluation (Jinja) itself is not modelled: a formula is its value table over the row key",
                "route stream: Jinja evaluates + - * ** on integers exactly; in dialect 2 a formula result is re-read as a number only when it is a digit string >= 1 "
                "(0 and negative results stay text: accepted as the decimal text of the integer); texts beyond CPython's 4300-digit int limit are not generated",
+               "fresh-process cases: for a fixed recipe and position the draw is a function of the process's entropy (RandFuncs.number_at); the harness observes equality of VALUES "
+               "across processes, which for random_number is equality of draws (C11_stuck_values_iff_stuck_draws); a re-seeding that depends on something that differs between "
+               "processes started together (pid, clock) is not detected",
                "Python int arithmetic = Z arithmetic; local time zone = UTC"]
 EXHAUSTIVE = {"quick": False, "thorough": False}
 
@@ -213,6 +228,22 @@ def weight_formula(case, j):
     return json.dumps("${{ " + expr + " }}" if syn == "jinja" else "<< " + expr + " >>")
 
 
+def lab_text(case, lab):
+    """the option as written into the recipe: L<n>, or (round 5) the digit-like text the label stands for"""
+    if "dlab" in case:
+        t = dict(case["dlab"]["texts"])[lab]
+        return json.dumps(t, ensure_ascii=False) if case["dlab"].get("quoted", True) else t
+    return f"L{lab}"
+
+
+def dlab_back(case, v):
+    """a returned value that IS one of the listed texts (same type, same characters) -> its label"""
+    for lab, t in case["dlab"]["texts"]:
+        if isinstance(v, str) and v == t:
+            return f"L{lab}"
+    return v
+
+
 def body_lines(case):
     k = case["kind"]
     if k == "number":
@@ -225,7 +256,7 @@ def body_lines(case):
         if form == "list":
             if not items:
                 return ["random_choice: []"]
-            return ["random_choice:"] + [f"  - L{lab}" for lab, _, _ in items]
+            return ["random_choice:"] + [f"  - {lab_text(case, lab)}" for lab, _, _ in items]
         if "raw" in case:                     # probabilities given as literal texts (malformed ones included)
             if form == "dict":
                 return ["random_choice:"] + [f"  L{lab}: {json.dumps(t)}" for (lab, _, _), t in zip(items, case["raw"])]
@@ -241,7 +272,7 @@ def body_lines(case):
                     lines.append(f"      probability: {weight_formula(case, j)}")
                 elif q is not None:
                     lines.append(f"      probability: {fmt_weight(q, st)}")
-                lines.append(f"      pick: L{lab}")
+                lines.append(f"      pick: {lab_text(case, lab)}")
             return lines
         if "wrows" in case:
             return ["random_choice:"] + [f"  L{lab}: {weight_formula(case, j)}" for j, (lab, _, _) in enumerate(items)]
@@ -563,7 +594,344 @@ def inline_expr(case):
     return "${{random_number(" + args + ")}}"
 
 
+# ------------------------------------------------------------------------------------------------
+# round 5: bounded draws in FRESH processes, preceded by other recipe features.
+# "Both ends of the lattice are attainable" is a statement about what a user who runs the recipe can get.  A short
+# run in a new process (CLI, job worker) starts from the interpreter's entropy-seeded generator; if some recipe
+# feature (unique ids, fake data, dataset shuffle, random_reference, a plugin ...) resets the process-wide generator
+# to a fixed state, every draw after it is a constant of the recipe: in range, but no other lattice point is ever
+# produced.  A case is one recipe run in FRESH_PROCS new processes; the oracle looks at every draw POSITION
+# (table, row, field) across the processes.
+FRESH_PROCS = 6
+FRESH_MIN_PROCS = 5          # fewer usable runs (timeouts under load): nothing is said
+FRESH_BITS = 40              # see fresh_oracle / fresh_threshold for the false-alarm bound
+FRESH_DEADLINE = 36          # seconds for all processes of one case (CASE_TIMEOUT is 45)
+
+FRESH_PLUGINS = {"UniqueId": "snowfakery.standard_plugins.UniqueId", "Dataset": "snowfakery.standard_plugins.datasets.Dataset",
+                 "Schedule": "snowfakery.standard_plugins.Schedule", "Counters": "snowfakery.standard_plugins.Counters",
+                 "Math": "snowfakery.standard_plugins.Math"}
+# feature -> (plugins, top-level statements, field body lines; a second hidden helper field may precede it)
+FRESH_FEATS = {
+    "unique_id": ((), (), ["${{unique_id}}"]),
+    "unique_alpha_code": ((), (), ["${{unique_alpha_code}}"]),
+    "unique_id_twice": ((), (), ["${{unique_id}}-${{unique_alpha_code}}-${{unique_id}}"]),
+    "var_unique_id": ((), ("- var: UV\n  value: ${{unique_id}}",), ["${{UV}}"]),
+    "numeric_generator": (("UniqueId",), ("- var: NG\n  value:\n    UniqueId.NumericIdGenerator:",), ["${{NG.unique_id}}"]),
+    "numeric_generator_index": (("UniqueId",), ("- var: NGI\n  value:\n    UniqueId.NumericIdGenerator:\n      template: index",), ["${{NGI.unique_id}}"]),
+    "numeric_generator_context": (("UniqueId",), ("- var: NGC\n  value:\n    UniqueId.NumericIdGenerator:\n      template: context,index",),
+                                  ["${{NGC.unique_id}}"]),
+    "alpha_generator": (("UniqueId",), ("- var: AG\n  value:\n    UniqueId.AlphaCodeGenerator:",), ["${{AG.unique_id}}"]),
+    "alpha_generator_dna": (("UniqueId",), ("- var: AGD\n  value:\n    UniqueId.AlphaCodeGenerator:\n      alphabet: ACGT",), ["${{AGD.unique_id}}"]),
+    "alpha_generator_short": (("UniqueId",), ("- var: AGS\n  value:\n    UniqueId.AlphaCodeGenerator:\n      min_chars: 4",), ["${{AGS.unique_id}}"]),
+    "alpha_generator_plain": (("UniqueId",), ("- var: AGP\n  value:\n    UniqueId.AlphaCodeGenerator:\n      randomize_codes: False",),
+                              ["${{AGP.unique_id}}"]),
+    "fake_name": ((), (), ["fake: Name"]),
+    "fake_email": ((), (), ["${{fake.Email}}"]),
+    "fake_username": ((), (), ["fake: Username"]),
+    "fake_text": ((), (), ["${{fake.Sentence(nb_words=4)}}"]),
+    "fake_locale": ((), ("- var: snowfakery_locale\n  value: fr_FR",), ["fake: LastName"]),
+    "fake_date": ((), (), ["${{fake.DateOfBirth}}"]),
+    "dataset_shuffle": (("Dataset",), (), ["Dataset.shuffle:", "  dataset: fresh_data.csv"]),
+    "dataset_iterate": (("Dataset",), (), ["Dataset.iterate:", "  dataset: fresh_data.csv"]),
+    "random_reference": ((), (), ["random_reference: T"]),
+    "random_reference_unique": ((), (), ["random_reference:", "  to: T", "  unique: true"]),
+    "schedule": (("Schedule",), (), ["Schedule.Event:", "  start_date: 2023-10-31", "  freq: yearly"]),
+    "number_counter": (("Counters",), (), ["Counters.NumberCounter:", "  start: 11", "  step: 3"]),
+    "date_counter": (("Counters",), (), ["Counters.DateCounter:", "  start_date: 2021-12-12", "  step: +3M"]),
+    "math": (("Math",), (), ["${{Math.sqrt(16) + Math.floor(2.5)}}"]),
+    "today_now": ((), (), ["${{today}} ${{now}}"]),
+    "date_fn": ((), (), ["${{date('2001-02-03') + relativedelta(days=id)}}"]),
+    "id_formula": ((), (), ["${{id * 3 + child_index}}"]),
+    "earlier_draws": ((), (), ["${{random_number(1, 6)}}-${{random_choice('a', 'b', 'c')}}"]),
+    "include_file": ((), ("- include_file: fresh_inc.yml",), ["${{INCV}}"]),
+    "macro": ((), ("- macro: MC\n  fields:\n    code: ${{unique_id}}\n    who:\n      fake: FirstName",), None),
+}
+FRESH_FILES = {"fresh_data.csv": "a,b\n1,x\n2,y\n3,z\n4,u\n5,v\n6,w\n7,t\n8,s\n",
+               "fresh_inc.yml": "- var: INCV\n  value: ${{unique_alpha_code}}\n- object: Inc\n  fields:\n    code: ${{unique_id}}\n"}
+
+
+def fresh_probe_lines(p, inline):
+    k = p["kind"]
+    if k == "number":
+        if inline:
+            args = f"min={p['min']}, max={p['max']}" + (f", step={p['step']}" if p["step"] is not None else "")
+            return ["${{random_number(" + args + ")}}"]
+        return ["random_number:", f"  min: {p['min']}", f"  max: {p['max']}"] + ([f"  step: {p['step']}"] if p["step"] is not None else [])
+    if k == "choice":
+        if p["weights"] is None:
+            if inline:
+                return ["${{random_choice(" + ", ".join(f"'L{lab}'" for lab in p["labels"]) + ")}}"]
+            return ["random_choice:"] + [f"  - L{lab}" for lab in p["labels"]]
+        if p.get("form") == "dict":
+            return ["random_choice:"] + [f"  L{lab}: {w}%" for lab, w in zip(p["labels"], p["weights"])]
+        lines = ["random_choice:"]
+        for lab, w in zip(p["labels"], p["weights"]):
+            lines += ["  - choice:", f"      probability: {w}", f"      pick: L{lab}"]
+        return lines
+    if k == "date":
+        return ["date_between:", f"  start_date: {p['start']}", f"  end_date: {p['end']}"]
+    return ["datetime_between:", f"  start_date: '{p['start']}'", f"  end_date: '{p['end']}'"]
+
+
+def fresh_recipe(case):
+    """-> recipe text.  Layout: [version] plugins, statements of the features, [object T: targets of random_reference],
+    [object P: the `pre` features], object A (count = rows): `row` features, the probes (in a friend F when struct is
+    `friends`), `late` features."""
+    fr = case["fresh"]
+    feats = list(dict.fromkeys(fr["pre"] + fr["row"] + fr["late"]))
+    plugins = list(dict.fromkeys(pl for f in feats for pl in FRESH_FEATS[f][0]))
+    out = []
+    if fr["dialect"] == 3:
+        out.append("- snowfakery_version: 3")
+    elif fr["dialect"] == 2 and fr.get("explicit_version"):
+        out.append("- snowfakery_version: 2")
+    out += [f"- plugin: {FRESH_PLUGINS[pl]}" for pl in plugins]
+    for f in feats:
+        out += list(FRESH_FEATS[f][1])
+    if any(f.startswith("random_reference") for f in feats):
+        out += ["- object: T", f"  count: {fr['rows'] + 3}", "  fields:", "    name: t${{id}}"]
+
+    def feature_fields(names, prefix, indent):
+        lines = []
+        for n, f in enumerate(names):
+            body = FRESH_FEATS[f][2]
+            if body is None:
+                continue
+            name = f"{'__' if f.startswith('dataset') else ''}{prefix}{n}"
+            one = len(body) == 1 and body[0].startswith("${{")
+            lines.append(f"{indent}{name}:" + (f" {body[0]}" if one else ""))
+            if not one:
+                lines += [f"{indent}  {l}" for l in body]
+            if f.startswith("dataset"):
+                lines.append(f"{indent}{prefix}{n}v: ${{{{{name}.a}}}}-${{{{{name}.b}}}}")
+        return lines
+
+    def macro_line(names, indent):
+        return [f"{indent}include: MC"] if "macro" in names else []
+
+    if fr["pre"]:
+        out += ["- object: P"] + (["  just_once: true"] if fr.get("pre_once") else [f"  count: {fr.get('pre_count', 1)}"])
+        out += macro_line(fr["pre"], "  ")
+        fl = feature_fields(fr["pre"], "g", "    ")
+        out += (["  fields:"] + fl) if fl else []
+    out += ["- object: A", f"  count: {fr['rows']}"] + macro_line(fr["row"] + fr["late"], "  ") + ["  fields:"]
+    row_lines = feature_fields(fr["row"], "h", "    ")
+    out += row_lines
+    probe_lines = []
+    ind = "        " if fr["struct"] == "friends" else "    "
+    for j, p in enumerate(fr["probes"]):
+        body = fresh_probe_lines(p, p.get("inline", False))
+        probe_lines.append(f"{ind}p{j}:" + (f" {body[0]}" if len(body) == 1 else ""))
+        if len(body) > 1:
+            probe_lines += [f"{ind}  {l}" for l in body]
+    if fr["struct"] == "friends":
+        late = feature_fields(fr["late"], "i", "    ")
+        if not row_lines and not late:
+            out.append("    z: 0")
+        out += late
+        out += ["  friends:", "    - object: F", f"      count: {fr.get('children', 1)}", "      fields:"] + probe_lines
+    else:
+        out += probe_lines + feature_fields(fr["late"], "i", "    ")
+    return "\n".join(out) + "\n"
+
+
+FRESH_CHILD = r"""
+import io, json, sys
+from snowfakery import generate_data
+kw = json.loads(sys.argv[2])
+if "target_number" in kw:
+    kw["target_number"] = tuple(kw["target_number"])
+out = io.StringIO()
+generate_data(sys.argv[1], output_file=out, output_format="json", **kw)
+sys.stdout.write("\n@@ROWS@@" + json.dumps(json.loads(out.getvalue())))
+"""
+
+
+def run_fresh(case):
+    """FRESH_PROCS new interpreter processes, started together, each running the recipe once (API: generate_data on
+    the file; CLI: python -m snowfakery).  A process that does not finish in time is left out (never an alarm)."""
+    import os
+    import shutil
+    import subprocess
+    import sys
+    import tempfile
+    import time
+    fr = case["fresh"]
+    obs = {"runs": [], "errs": [], "late": 0}
+    probe_table = "F" if fr["struct"] == "friends" else "A"
+    wd = tempfile.mkdtemp(prefix="sfv_c11_fresh_", dir="/var/tmp")
+    procs = []
+    try:
+        with open(os.path.join(wd, "recipe.yml"), "w", encoding="utf-8") as f:
+            f.write(fresh_recipe(case))
+        for name, text in FRESH_FILES.items():
+            with open(os.path.join(wd, name), "w", encoding="utf-8") as f:
+                f.write(text)
+        env = dict(os.environ, PYTHONPATH=str(C.REPO), PYTHONWARNINGS="ignore", PYTHONDONTWRITEBYTECODE="1", TZ="UTC")
+        env.pop("PYTHONHASHSEED", None)          # a user's processes do not share a hash seed either
+        for k in range(fr.get("procs", FRESH_PROCS)):
+            if fr["route"] == "cli":
+                cmd = [sys.executable, "-m", "snowfakery", "recipe.yml", "--output-format", "json", "-o", f"out{k}.json"]
+                if fr.get("target"):
+                    cmd += ["--target-number", str(fr["target"]), "A"]
+            else:
+                kw = {"target_number": [fr["target"], "A"]} if fr.get("target") else {}
+                cmd = [sys.executable, "-c", FRESH_CHILD, "recipe.yml", json.dumps(kw)]
+            procs.append(subprocess.Popen(cmd, cwd=wd, env=env, stdout=subprocess.PIPE, stderr=subprocess.PIPE, text=True))
+        deadline = time.time() + FRESH_DEADLINE
+        for k, pr in enumerate(procs):
+            try:
+                so, se = pr.communicate(timeout=max(0.1, deadline - time.time()))
+            except subprocess.TimeoutExpired:
+                pr.kill()
+                pr.communicate()
+                obs["late"] += 1
+                continue
+            if pr.returncode != 0:
+                obs["errs"].append(" | ".join(l.strip() for l in se.strip().splitlines()[-2:])[:300])
+                continue
+            try:
+                if fr["route"] == "cli":
+                    with open(os.path.join(wd, f"out{k}.json"), encoding="utf-8") as f:
+                        rows = json.load(f)
+                else:
+                    rows = json.loads(so.split("@@ROWS@@", 1)[1])
+                obs["runs"].append([{n: v for n, v in r.items() if re.fullmatch(r"p[0-9]+", n)}
+                                    for r in rows if r.get("_table") == probe_table])
+            except Exception as e:
+                obs["errs"].append(f"output not readable: {type(e).__name__}: {e}"[:300])
+    except C._CaseTimeout:
+        obs["late"] += 1
+        obs["runs"] = []
+    finally:
+        for pr in procs:
+            if pr.poll() is None:
+                try:
+                    pr.kill()            # only processes this case started
+                    pr.wait(timeout=5)
+                except Exception:
+                    pass
+        shutil.rmtree(wd, ignore_errors=True)
+    return obs
+
+
+def fresh_probe_bits(p):
+    """min-entropy (bits) of one draw of the probe on correct code: log2 of the number of equally likely values,
+    -log2(largest probability) for weights.  None: less than 1 bit (not counted)."""
+    import math
+    k = p["kind"]
+    if k == "number":
+        n = (p["max"] - p["min"]) // (p["step"] or 1) + 1
+    elif k == "choice":
+        if p["weights"] is None:
+            n = len(set(p["labels"]))
+            if len(set(p["labels"])) != len(p["labels"]):
+                return None
+        else:
+            tot, top = sum(p["weights"]), max(p["weights"])
+            return math.log2(tot / top) if tot >= 2 * top else None
+    elif k == "date":
+        n = date.fromisoformat(p["end"]).toordinal() - date.fromisoformat(p["start"]).toordinal()     # Faker: [start 00:00, end 00:00)
+    else:
+        n = int((datetime.fromisoformat(p["end"]) - datetime.fromisoformat(p["start"])).total_seconds())
+    return math.log2(n) if n >= 2 else None
+
+
+def fresh_value_problem(p, v, dialect=3):
+    """the ordinary bounds / lattice / listed-option statement for one value of one probe"""
+    k = p["kind"]
+    if k == "number":
+        st = p["step"] or 1
+        if dialect == 2 and p.get("inline") and isinstance(v, str) and re.fullmatch(r"0|-[1-9][0-9]*", v):
+            v = int(v)           # dialect 2 re-reads a rendered formula result as a number only when it is a digit string >= 1
+        if isinstance(v, bool) or not isinstance(v, int) or not (p["min"] <= v <= p["max"]) or (v - p["min"]) % st:
+            return f"random_number(min={p['min']}, max={p['max']}, step={p['step']}) returned {v!r}: outside the lattice"
+    elif k == "choice":
+        ok = {f"L{lab}" for lab, w in zip(p["labels"], p["weights"] or [1] * len(p["labels"])) if w > 0}
+        if v not in ok:
+            return f"random_choice over {['L%d' % lab for lab in p['labels']]} with weights {p['weights']} returned {v!r}"
+    elif k == "date":
+        try:
+            d = date.fromisoformat(v)
+        except Exception:
+            return f"date_between({p['start']}, {p['end']}) returned {v!r}"
+        if not (date.fromisoformat(p["start"]) <= d <= date.fromisoformat(p["end"])):
+            return f"date_between({p['start']}, {p['end']}) returned {v}: outside the bounds"
+    else:
+        try:
+            d = datetime.fromisoformat(v)
+        except Exception:
+            return f"datetime_between({p['start']}, {p['end']}) returned {v!r}"
+        if d.tzinfo is None:
+            d = d.replace(tzinfo=timezone.utc)
+        lo, hi = (datetime.fromisoformat(p[b]).replace(tzinfo=timezone.utc) for b in ("start", "end"))
+        if not (lo <= d <= hi):
+            return f"datetime_between({p['start']}, {p['end']}) returned {v}: outside the bounds"
+    return None
+
+
+def fresh_stuck(case, obs):
+    """-> (positions compared, [(row, probe index, bits, value)] of the positions whose value is the same in every process)"""
+    fr, runs = case["fresh"], obs.get("runs", [])
+    nrows = min((len(r) for r in runs), default=0)
+    stuck, npos = [], 0
+    for i in range(nrows):
+        for j, p in enumerate(fr["probes"]):
+            b = fresh_probe_bits(p)
+            vals = [r[i].get(f"p{j}", "<missing>") for r in runs]
+            if b is None or "<missing>" in vals:
+                continue
+            npos += 1
+            if all(json.dumps(v, sort_keys=True) == json.dumps(vals[0], sort_keys=True) for v in vals[1:]):
+                stuck.append((i, j, b, vals[0]))
+    return npos, stuck
+
+
+def fresh_threshold(npos, procs):
+    """bits B such that Pr[X >= B] <= 2^-59 for npos positions compared over `procs` processes (see fresh_oracle):
+    (1 + 2^-((P-1)/2))^n * 2^-((P-1)B/2) <= 2^-59  <=>  B >= 2 (59 + n log2(1 + 2^-((P-1)/2))) / (P-1); never below FRESH_BITS"""
+    import math
+    s = (procs - 1) / 2
+    return max(FRESH_BITS, (59 + npos * math.log2(1 + 2 ** -s)) / s)
+
+
+def fresh_oracle(case, obs):
+    """Correct code: the draws of different fresh processes are independent, so a position of min-entropy b bits shows
+    the same value in all P processes with probability <= 2^-(b(P-1)), independently of the other positions.  Let X be
+    the sum of b over the positions that are the same in all P processes.  Markov on 2^(sX) with s = (P-1)/2:
+    Pr[X >= B] <= prod_j (1 + 2^-(b_j (P-1)/2)) * 2^-((P-1)B/2) <= (1 + 2^-((P-1)/2))^n * 2^-((P-1)B/2)   (b_j >= 1, n positions).
+    With B = 40, n <= 64: P = 6 gives <= 1.18^64 * 2^-100 < 2^-84 (4e-26), P = 5 gives <= 1.25^64 * 2^-80 < 2^-59 (2e-18) per case;
+    for more positions (long runs) B grows with n so that the bound stays <= 2^-59 (fresh_threshold)."""
+    fr, runs = case["fresh"], obs.get("runs", [])
+    what = (f"fresh processes ({fr['route']}, dialect {fr['dialect']}, {fr['struct']}); features before the draws: "
+            f"earlier object {fr['pre'] or '-'}, earlier fields of the row {fr['row'] or '-'}, later fields {fr['late'] or '-'}")
+    for r, run in enumerate(runs):
+        for i, row in enumerate(run):
+            for j, p in enumerate(fr["probes"]):
+                if f"p{j}" in row:
+                    msg = fresh_value_problem(p, row[f"p{j}"], fr["dialect"])
+                    if msg:
+                        return f"fresh: {msg} -- process {r + 1}, row {i + 1}; {what}; recipe: {json.dumps(fresh_recipe(case))[:700]}"
+    if len(runs) < FRESH_MIN_PROCS:
+        return None
+    npos, stuck = fresh_stuck(case, obs)
+    bits = sum(b for _, _, b, _ in stuck)
+    if bits < fresh_threshold(npos, len(runs)):
+        return None
+    shown = []
+    for i, j, b, v in stuck[:4]:
+        body = " ".join(l.strip() for l in fresh_probe_lines(fr["probes"][j], fr["probes"][j].get("inline", False)))
+        shown.append(f"row {i + 1} field p{j} [{body}] = {v!r} every time")
+    two = [(i, j, v) for i, j, b, v in stuck if fr["probes"][j]["kind"] == "number" and b == 1.0]
+    ends = (f"; of {len(two)} two-point lattices only one point each is ever produced" if two else "")
+    return (f"fresh: stuck: {len(runs)} {what}: {len(stuck)} of {npos} draw positions gave the SAME value in every process "
+            f"({bits:.0f} bits that should be free; correct code does this with probability < 2^-59): " + "; ".join(shown) + ends +
+            f" -- the other lattice points (and the ends) are unattainable for this recipe; recipe: {json.dumps(fresh_recipe(case))[:900]}")
+
+
 def recipe(case):
+    if "fresh" in case:
+        return fresh_recipe(case)
     if "blk" in case:
         return block_recipe(case)
     if "rowargs" in case:
@@ -572,7 +940,11 @@ def recipe(case):
         return paths_recipe(case)
     rows = case["draws"]["rows"]
     version = "" if case.get("syntax") == "legacy" else "- snowfakery_version: 3\n"   # << >> needs the legacy mode
+    if "dlab" in case and case["dlab"]["dialect"] == 2:
+        version = "- snowfakery_version: 2\n" if case["dlab"].get("explicit") else ""
     head = f"{version}- object: A\n  count: {rows}\n  fields:\n"
+    if "dlab" in case and case["dlab"]["call"] == "inline":
+        return head + "    d: ${{ random_choice(" + ", ".join("'" + dict(case["dlab"]["texts"])[lab] + "'" for lab, _, _ in case["items"]) + ") }}\n"
     if case["kind"] == "number" and case.get("style") == "inline":
         return head + f"    d: {inline_expr(case)}\n"
     return head + "    d:\n" + "".join(f"      {l}\n" for l in body_lines(case))
@@ -673,6 +1045,8 @@ def _now_us():
 def run_impl(case):
     import os
     import time
+    if "fresh" in case:
+        return run_fresh(case)
     os.environ["TZ"] = "UTC"
     time.tzset()
     from snowfakery import generate_data
@@ -737,6 +1111,8 @@ def run_impl(case):
               obs["ok"] = [r[1] for r in obs["rows"]]
           else:
               vals = [r.get("d") for r in rows if r.get("_table") == "A"]
+              if "dlab" in case:
+                  vals = [dlab_back(case, v) for v in vals]
               if paths_result_reread(case):
                   # dialect 2 renders the result of a formula to text and reads back only digit strings >= 1:
                   # 0 and negative results stay the decimal text of the integer
@@ -857,6 +1233,8 @@ def block_coq_case(case, obs):
 
 
 def coq_case(case, obs):
+    if "fresh" in case:
+        return None                      # a statement about several processes: checked by the oracle only
     if _uses_clock(case) and not obs.get("clock_stable", True):
         return None                      # midnight passed during the run
     if case["kind"] == "datetime" and any(sp["t"] in ("now", "rel") for sp in all_specs(case)) \
@@ -965,8 +1343,15 @@ def date_bound(sp, obs):
 
 
 def oracle(case, obs):
+    if "fresh" in case:
+        return fresh_oracle(case, obs)
     k = case["kind"]
     vals = obs.get("ok")
+    if vals is not None and "dlab" in case and any(v[0] == "other" for v in vals):
+        dl = case["dlab"]
+        return (f"choice: random_choice over the options {[dict(dl['texts'])[lab] for lab, _, _ in case['items']]} (texts made of digit-like characters that are not ASCII digits; "
+                f"dialect {dl['dialect']}, {case['form']} form, call written {dl['call']}) returned {[v[1] for v in vals if v[0] == 'other'][:2]}: not a listed option "
+                f"(the recipe language reads only ASCII digit strings as numbers); recipe: {json.dumps(recipe(case), ensure_ascii=False)[:500]}")
     if vals is not None and any(v[0] == "other" for v in vals):
         return f"{k}: unexpected value in the output: {[v for v in vals if v[0] == 'other'][:2]}"
     mode = case["draws"]["mode"]
@@ -1112,6 +1497,8 @@ def oracle(case, obs):
 
 
 def violation_class(case, obs, msg):
+    if "fresh" in case:
+        return ":".join(msg.split(":")[:2])
     return ":".join(msg.split(":")[:2]) if case["kind"] == "datetime" else msg.split(":")[0]
 
 
@@ -1125,6 +1512,8 @@ def match_finding(case, obs, msg, findings):
 # evidence
 def nontrivial(case, obs):
     k = case["kind"]
+    if "fresh" in case:
+        return len(obs.get("runs", [])) >= FRESH_MIN_PROCS and fresh_stuck(case, obs)[0] >= 2
     if "rowargs" in case:
         return "ok" in obs and len(obs.get("rows", [])) >= 2
     if k == "number":
@@ -1155,6 +1544,37 @@ def stats(cases, obss):
     rows = 0
     for c, o in zip(cases, obss):
         if not isinstance(o, dict):
+            continue
+        if "fresh" in c:
+            fr = c["fresh"]
+            runs = o.get("runs", [])
+            outcomes["fresh:" + ("ok" if len(runs) >= FRESH_MIN_PROCS else "error-in-child" if o.get("errs") else "too-few-processes-in-time")] += 1
+            rows += sum(len(row) for r in runs for row in r)
+            feats["fresh"] += 1
+            feats[f"fresh:route:{fr['route']}"] += 1
+            feats[f"fresh:dialect-{fr['dialect']}"] += 1
+            feats[f"fresh:structure:{fr['struct']}" + (":target_number" if fr.get("target") else "")] += 1
+            feats["fresh:rows:" + ("2-4" if fr["rows"] <= 4 else "25-45")] += 1
+            feats[f"fresh:processes-compared:{len(runs)}"] += 1
+            if not (fr["pre"] or fr["row"] or fr["late"]):
+                feats["fresh:no-other-feature (draws only)"] += 1
+            for place in ("pre", "row", "late"):
+                for f in fr[place]:
+                    feats[f"fresh:feature:{f}"] += 1
+                    feats[f"fresh:feature-place:{ {'pre': 'earlier-object', 'row': 'earlier-field-of-the-row', 'late': 'later-field (earlier than the next row)'}[place]}"] += 1
+            for pb in fr["probes"]:
+                b = fresh_probe_bits(pb)
+                feats[f"fresh:probe:{pb['kind']}" + (":step" if pb.get("step") else "") + (":weighted" if pb.get("weights") else "")
+                      + (":inline" if pb.get("inline") else "") + (":two-point" if b == 1.0 else ":wide" if b and b >= 16 else "")] += 1
+            if len(runs) >= FRESH_MIN_PROCS:
+                npos, stuck = fresh_stuck(c, o)
+                feats["fresh:positions-compared"] += npos
+                feats["fresh:positions-equal-in-every-process (chance)"] += len(stuck)
+                two = [(i, j) for i in range(min(len(r) for r in runs)) for j, pb in enumerate(fr["probes"]) if fresh_probe_bits(pb) == 1.0]
+                if two:
+                    feats["fresh:two-point-positions"] += len(two)
+                    feats["fresh:two-point-positions-with-both-ends-seen"] += sum(
+                        1 for i, j in two if len({json.dumps(r[i].get(f"p{j}")) for r in runs}) == 2)
             continue
         outcomes[f"{c['kind']}:{o.get('err', 'ok') if ('ok' in o or 'err' in o) else 'n/a'}"] += 1
         rows += len(o.get("ok", []))
@@ -1231,6 +1651,12 @@ def stats(cases, obss):
         elif k == "choice":
             ws = choice_weights(c)
             feats[f"choice:{c['form']}"] += 1
+            if "dlab" in c:
+                feats["choice:digit-like-option-texts"] += 1
+                feats[f"choice:digit-like-option-texts:dialect-{c['dlab']['dialect']}:{c['dlab']['call']}"] += 1
+                for _, t in c["dlab"]["texts"]:
+                    feats["choice:digit-like-option:" + ("non-ascii-decimal" if t.isdecimal() else "isdigit-not-decimal" if t.isdigit() else
+                                                         "isnumeric-only" if t.isnumeric() else "float-like" if "." in t else "mixed-with-other-text")] += 1
             if "raw" in c:
                 feats["choice:probability-text-as-written (float() accepts / rejects)"] += 1
             for _, q, st in c["items"]:
@@ -1573,6 +1999,55 @@ def gen_choice(rng, tier):
     for okt in ("5.", ".5", "+.5", "007", "0.250", " 12 ", "12 %", "1%%%"):
         out.append({"kind": "choice", "form": rng.choice(["choices", "dict"]), "items": [[1, None, "raw"], [2, None, "raw"]],
                     "raw": [okt, "0"], "draws": draws(rng, "ends")})
+    return out
+
+
+DLAB_DIGITS = ["\u0660\u0661\u0662\u0663\u0664\u0665\u0666\u0667\u0668\u0669",      # Arabic-Indic
+               "\u06f0\u06f1\u06f2\u06f3\u06f4\u06f5\u06f6\u06f7\u06f8\u06f9",      # extended Arabic-Indic
+               "\u0966\u0967\u0968\u0969\u096a\u096b\u096c\u096d\u096e\u096f",      # Devanagari
+               "\u09e6\u09e7\u09e8\u09e9\u09ea\u09eb\u09ec\u09ed\u09ee\u09ef",      # Bengali
+               "\u0e50\u0e51\u0e52\u0e53\u0e54\u0e55\u0e56\u0e57\u0e58\u0e59",      # Thai
+               "\uff10\uff11\uff12\uff13\uff14\uff15\uff16\uff17\uff18\uff19",      # full-width
+               "".join(chr(0x1d7ce + i) for i in range(10))]                                  # mathematical bold
+DLAB_OTHER = ["\u00b2", "\u00b2\u00b3", "\u2460", "4\u00b2", "\u00bd", "\u216b", "\u56db\u5341\u4e8c", "\u2082\u2084", "\u0bf0"]
+
+
+def gen_dlab_text(rng):
+    """a text a reader might take for a number, but which is not an ASCII digit string"""
+    r = rng.random()
+    ds = rng.choice(DLAB_DIGITS)
+    if r < 0.55:                                   # str.isdecimal(): int() would accept it
+        n = rng.choice([1, 2, 2, 3, 9, 17])
+        return ds[rng.randint(0 if rng.random() < 0.2 else 1, 9)] + "".join(rng.choice(ds) for _ in range(n - 1))
+    if r < 0.7:                                    # ASCII and non-ASCII digits mixed (still isdecimal)
+        t = "".join(rng.choice(ds + "0123456789") for _ in range(rng.randint(2, 6)))
+        return (t if not t.isascii() else t + ds[3]).lstrip("0") or ds[4]
+    if r < 0.82:                                   # float() would accept it
+        return ds[rng.randint(1, 9)] + rng.choice(ds) + "." + rng.choice(ds)
+    return rng.choice(DLAB_OTHER)                  # isdigit() / isnumeric() only, or neither int() nor float() reads it
+
+
+def gen_dlab(rng, tier):
+    """random_choice whose OPTIONS are such texts: `returns only listed options` means the text, in both dialects"""
+    out = []
+    for i in range(40 if tier == "quick" else 600):
+        k = rng.choice([2, 2, 3, 4])
+        texts = []
+        while len(texts) < k:
+            t = gen_dlab_text(rng)
+            if t not in texts:
+                texts.append(t)
+        dialect = 2 if i % 4 != 3 else 3
+        form = rng.choice(["list", "list", "choices"])
+        call = "inline" if form == "list" and rng.random() < 0.4 else "block"
+        dl = {"texts": [[j + 1, t] for j, t in enumerate(texts)], "dialect": dialect, "explicit": rng.random() < 0.3, "call": call,
+              "quoted": rng.random() < 0.7}
+        ws = [rng.choice([4, 40, 100, 200]) for _ in range(k)]
+        items = [[j + 1, (None if form == "list" else ws[j]), "num"] for j in range(k)]
+        base = {"kind": "choice", "form": form, "items": items, "dlab": dl}
+        out.append(dict(base, draws=draws(rng, "all", rows=k) if form == "list" else draws(rng, "ends")))
+        if i % 3 == 0:
+            out.append(dict(base, draws=draws(rng, "free", rows=12)))
     return out
 
 
@@ -1952,12 +2427,112 @@ def gen_datetime(rng, tier):
     return out
 
 
+def gen_fresh_probe(rng, role):
+    if role == "wide":
+        mn = rng.choice([0, 1, 1, -5, rng.randint(-10 ** 6, 10 ** 6), -(10 ** 9), 2 ** 53 + 1])
+        step = rng.choice([None, None, 1, 2, 3, 7, 10, rng.randint(1, 50)])
+        npts = rng.choice([2 ** 21 + 5, 2 ** 20, 2 ** 24, 10 ** 9, 2 ** 32 + 1, 2 ** 64 + 3, rng.randint(2 ** 20, 2 ** 40)])
+        return {"kind": "number", "min": mn, "max": mn + (npts - 1) * (step or 1) + rng.randint(0, (step or 1) - 1), "step": step,
+                "inline": rng.random() < 0.4}
+    if role == "coin":
+        mn = rng.choice([0, 1, 1, -1, rng.randint(-100, 100)])
+        step = rng.choice([None, None, 1, 2, 5])
+        return {"kind": "number", "min": mn, "max": mn + (step or 1) + (rng.randint(0, step - 1) if step else 0), "step": step,
+                "inline": rng.random() < 0.4}
+    if role == "small":
+        mn = rng.randint(-20, 20)
+        step = rng.choice([None, 1, 2, 3])
+        return {"kind": "number", "min": mn, "max": mn + rng.randint(2, 30) * (step or 1), "step": step, "inline": rng.random() < 0.4}
+    if role == "choice":
+        n = rng.randint(2, 8)
+        return {"kind": "choice", "labels": rng.sample(range(1, 30), n), "weights": None, "inline": rng.random() < 0.4}
+    if role == "weighted":
+        n = rng.randint(2, 6)
+        ws = [rng.choice([0, 10, 10, 20, 25, 30, 50]) for _ in range(n)]
+        if sum(1 for w in ws if w) < 2:
+            ws[0], ws[-1] = 30, 30
+        return {"kind": "choice", "labels": rng.sample(range(1, 30), n), "weights": ws, "form": rng.choice(["choices", "dict"])}
+    if role == "date":
+        y = rng.randint(1950, 2040)
+        return {"kind": "date", "start": f"{y:04d}-{rng.randint(1, 12):02d}-{rng.randint(1, 28):02d}",
+                "end": f"{y + rng.randint(3, 60):04d}-{rng.randint(1, 12):02d}-{rng.randint(1, 28):02d}"}
+    y = rng.randint(1971, 2035)
+    return {"kind": "datetime", "start": f"{y:04d}-{rng.randint(1, 12):02d}-{rng.randint(1, 28):02d}T{rng.randint(0, 23):02d}:{rng.randint(0, 59):02d}:00",
+            "end": f"{y + rng.randint(1, 30):04d}-{rng.randint(1, 12):02d}-{rng.randint(1, 28):02d}T{rng.randint(0, 23):02d}:00:{rng.randint(0, 59):02d}"}
+
+
+def gen_fresh_case(rng, i, feats=None, place=None, long=False):
+    names = sorted(FRESH_FEATS)
+    rows = rng.randint(25, 45) if long else rng.choice([2, 2, 3, 4])
+    if feats is None:
+        r = rng.random()
+        feats = [] if r < 0.12 else rng.sample(names, 1 if r < 0.55 else 2 if r < 0.85 else 3)
+    fr = {"dialect": 3 if i % 2 == 0 else 2, "explicit_version": rng.random() < 0.3, "route": "cli" if i % 4 == 3 else "api",
+          "rows": rows, "struct": rng.choice(["count", "count", "count", "friends"]), "pre": [], "row": [], "late": [],
+          "pre_once": rng.random() < 0.3, "pre_count": rng.choice([1, 1, 2, 3])}
+    for f in feats:
+        fr[place or rng.choice(["pre", "row", "row", "late"])].append(f)
+    if fr["struct"] == "friends":
+        fr["children"] = rng.choice([1, 2])
+    elif rng.random() < 0.15:
+        fr["target"] = rows + rng.randint(0, 2)          # stopping criterion instead of one pass
+    # every row: three wide random_number lattices (>= 2^20 points each: 60 bits per row), two-point lattices whose ends
+    # must both stay attainable, and a mix of the other bounded functions
+    probes = [gen_fresh_probe(rng, "wide"), gen_fresh_probe(rng, "coin"), gen_fresh_probe(rng, "wide"), gen_fresh_probe(rng, "coin"), gen_fresh_probe(rng, "wide")]
+    probes += [gen_fresh_probe(rng, rng.choice(["coin", "small", "choice", "weighted", "date", "datetime", "wide"])) for _ in range(rng.randint(1, 4))]
+    head = [probes.pop(0)]
+    rng.shuffle(probes)
+    fr["probes"] = head + probes
+    if long:             # a longer run (a re-seeding that happens only after some rows / ids): few draws per row
+        fr["probes"] = [gen_fresh_probe(rng, "wide"), gen_fresh_probe(rng, "coin"), gen_fresh_probe(rng, rng.choice(["small", "choice", "date", "datetime"]))]
+        fr["struct"], fr["target"] = "count", None
+        fr.pop("children", None)
+    return {"kind": "fresh", "fresh": fr, "draws": {"mode": "fresh", "rows": rows}}
+
+
+def gen_fresh(rng, tier):
+    """every feature at least once per run (quick: two per recipe, each in a place of its own; the pairing, the places and the
+    companions vary with the seed; thorough: also alone), plus random mixes"""
+    names = sorted(FRESH_FEATS)
+    rng.shuffle(names)
+    out = [gen_fresh_case(rng, i, feats=names[2 * i:2 * i + 2]) for i in range((len(names) + 1) // 2)]
+    if tier != "quick":
+        out += [gen_fresh_case(rng, len(out) + i, feats=[f]) for i, f in enumerate(names)]
+    out += [gen_fresh_case(rng, len(out) + i) for i in range(4 if tier == "quick" else 60)]
+    ids = [f for f in names if "unique" in f or "generator" in f]
+    out += [gen_fresh_case(rng, len(out) + i, feats=[rng.choice(ids)] + ([rng.choice(names)] if i % 2 else []), long=True)
+            for i in range(2 if tier == "quick" else 12)]
+    return out
+
+
 def generate(rng, tier):
-    return gen_number(rng, tier) + gen_number_paths(rng, tier) + gen_choice(rng, tier) + gen_blocks(rng, tier) + gen_rowargs(rng, tier) + gen_date(rng, tier) + gen_datetime(rng, tier)
+    base = (gen_number(rng, tier) + gen_number_paths(rng, tier) + gen_choice(rng, tier) + gen_dlab(rng, tier) + gen_blocks(rng, tier) + gen_rowargs(rng, tier)
+            + gen_date(rng, tier) + gen_datetime(rng, tier))
+    # the fresh-process cases start several interpreters each: spread them over the list so that the pool's
+    # chunks (consecutive cases go to one worker) do not serialise them
+    fresh = gen_fresh(rng, tier)
+    gap = max(1, len(base) // (len(fresh) + 1))
+    out = []
+    for n, c in enumerate(base):
+        out.append(c)
+        if n % gap == gap - 1 and fresh:
+            out.append(fresh.pop())
+    return out + fresh
 
 
 def shrink(case):
     if "rowargs" in case:
+        return
+    if "fresh" in case:
+        fr = case["fresh"]
+        for place in ("pre", "row", "late"):
+            for f in fr[place]:
+                if len(fr["pre"]) + len(fr["row"]) + len(fr["late"]) > 1:
+                    yield dict(case, fresh=dict(fr, **{place: [g for g in fr[place] if g != f]}))
+        if fr["struct"] == "friends":
+            yield dict(case, fresh=dict(fr, struct="count"))
+        if fr.get("target"):
+            yield dict(case, fresh=dict(fr, target=None))
         return
     if "blk" in case:
         blk = case["blk"]
@@ -2008,5 +2583,5 @@ def directed_search(rng, disagreeing):
                     st = step or 1
                     out.append({"kind": "number", "min": mn, "max": mn + span, "step": step, "style": "block",
                                 "draws": draws(rng, "all", rows=span // st + 1)})
-    out += gen_number_paths(rng, "quick") + gen_choice(rng, "quick") + gen_blocks(rng, "quick") + gen_rowargs(rng, "quick") + gen_date(rng, "quick") + gen_datetime(rng, "quick")
+    out += gen_number_paths(rng, "quick") + gen_choice(rng, "quick") + gen_dlab(rng, "quick") + gen_blocks(rng, "quick") + gen_rowargs(rng, "quick") + gen_date(rng, "quick") + gen_datetime(rng, "quick")
     return out
